@@ -2,7 +2,7 @@
 """prints the prompt for a seeding sub-agent: tools/agent_prompt.py <PID> <worktree> [n]"""
 import json, os, sys
 pid, wt = sys.argv[1], sys.argv[2]
-n = int(sys.argv[3]) if len(sys.argv) > 3 else 2
+n = int(sys.argv[3]) if len(sys.argv) > 3 and sys.argv[3].isdigit() else 2
 p = {json.loads(l)['id']: json.loads(l) for l in open('/verif/properties.jsonl')}[pid]
 text = (f"""You are helping to evaluate a verification harness for the Python library sissaschool/elementpath (a pure-Python XPath 1.0/2.0/3.0/3.1 parser and evaluator over ElementTree/lxml, with XSD datatypes and a regex translator).
 
@@ -28,6 +28,17 @@ For EACH change k = 1..{n}:
 Practical notes: (a) `python some/dir/demo.py` puts the script's directory, not the cwd, on sys.path, and an editable install of elementpath pointing at another checkout exists in /venv - so each demo.py MUST start with `import os, sys; sys.path.insert(0, os.getcwd())` and be run with cwd={wt}; print elementpath.__file__ in the demo output. (b) NEVER use `git stash` (the stash is shared between worktrees used by other people): to compare with/without use `git -C {wt} diff > /tmp/x.diff; git -C {wt} checkout -- .; ...; git -C {wt} apply /tmp/x.diff`. (c) the test suite takes about 20 seconds.
 
 Rules: do not edit tests; do not add new files to the library; the patch must apply with `git apply` to a clean checkout; no network is available. If a candidate change makes any previously passing test fail, discard it and try another. Finish by replying with a short list of the {n} changes (summary + needs) and confirming the files written.""")
+if '--avoid' in sys.argv:
+    # second wave: name the sites of the changes that earlier helpers produced, so that this helper picks other sites and kinds
+    import glob
+    prev = []
+    for mp in sorted(glob.glob('/verif/seeded/%s-*/meta.json' % pid)):
+        m = json.load(open(mp))
+        prev.append('  - %s  [%s]' % (str(m.get('summary', ''))[:260], str(m.get('site', ''))[:120]))
+    if prev:
+        text = text.replace('For EACH change k = 1..', 'Earlier helpers already produced the changes listed below. Do NOT repeat them or close variants: choose other code sites, other '
+                            'mechanisms and other kinds of input (think of the parts of the property statement and of its quantifier that these do not touch).\n'
+                            + '\n'.join(prev) + '\n\nFor EACH change k = 1..', 1)
 out = '/tmp/seed_%s' % wt.split('_')[-1]
 os.makedirs(out, exist_ok=True)
 open(out + '/TASK.md', 'w').write(text)
